@@ -649,22 +649,46 @@ Proof.
   apply WIP_out_none; [intros; apply wbit_none; exact Ep|exact W].
 Qed.
 
-Lemma pending_sess_get h na : pending (fst (sess_get h na)) = pending h.
-Proof. unfold sess_get. destruct (alist_get na (sessions h)); reflexivity. Qed.
-Lemma active_sess_get' h na : active (fst (sess_get h na)) = active h.
-Proof. unfold sess_get. destruct (alist_get na (sessions h)); reflexivity. Qed.
+Lemma pending_sess_get c h na : pending (fst (sess_get c h na)) = pending h.
+Proof. apply (sess_get_frame c h na). Qed.
+Lemma active_sess_get' c h na : active (fst (sess_get c h na)) = active h.
+Proof. apply (sess_get_frame c h na). Qed.
 
-Lemma WI_sess_get c G H0 z ex s na : WI c G H0 z ex s -> WI c G H0 z ex (with_hs s (fst (sess_get (hs s) na))).
+(* the invariant does not look at the clock of the environment *)
+Lemma WI_clock c t G H0 z ex s : WI (with_clock c t) G H0 z ex s <-> WI c G H0 z ex s.
+Proof. split; intros [A1 A2 A3 A4 A5 A6 A7 A8]; split; assumption. Qed.
+
+(* the configuration [c'] whose clock the session cache reads need not be the one of the invariant *)
+Lemma WI_sess_get c' c G H0 z ex s na :
+  WI c G H0 z ex s -> WI c G H0 z ex (with_hs s (fst (sess_get c' (hs s) na))).
 Proof.
   intros W. apply WI_frame; [apply active_sess_get'|apply pending_sess_get| |exact W].
-  destruct (QH_sess_get (hs s) na) as (_ & HD & _). exact HD.
+  destruct (QH_sess_get c' (hs s) na) as (_ & HD & _). exact HD.
 Qed.
 
-Lemma WI_is_awaiting c G H0 z ex s na : WI c G H0 z ex s -> WI c G H0 z ex (fst (is_awaiting_session s na)).
+Lemma WI_is_awaiting c' c G H0 z ex s na :
+  WI c G H0 z ex s -> WI c G H0 z ex (fst (is_awaiting_session c' s na)).
 Proof.
-  intros W. unfold is_awaiting_session. pose proof (WI_sess_get c G H0 z ex s na W) as X.
-  destruct (sess_get (hs s) na) as [h se]. cbn [fst] in X. destruct se; exact X.
+  intros W. unfold is_awaiting_session. pose proof (WI_sess_get c' c G H0 z ex s na W) as X.
+  destruct (sess_get c' (hs s) na) as [h se]. cbn [fst] in X. destruct se; exact X.
 Qed.
+
+(* Handler::remove_expired_sessions: sessions disappear, one event *)
+Lemma WI_remove_expired c' c G H0 z ex s : WI c G H0 z ex s -> WI c G H0 z ex (remove_expired_sessions c' s).
+Proof.
+  intros W. rewrite remove_expired_sessions_eq. destruct (fst (drop_expired c' (sessions (hs s)))) as [|k ks]; [exact W|].
+  apply WI_emit_event. apply WI_frame; [reflexivity|reflexivity| |exact W].
+  destruct (QH_drop_expired c' (hs s)) as (_ & HD & _). exact HD.
+Qed.
+Lemma remove_expired_wcnt c s x k H0 :
+  wcnt x k (H0 ++ outs (remove_expired_sessions c s)) = wcnt x k (H0 ++ outs s).
+Proof.
+  destruct (remove_expired_sessions_outs c s) as [l [E F]].
+  rewrite remove_expired_sessions_eq in *. destruct (fst (drop_expired c (sessions (hs s)))) as [|k0 ks]; [reflexivity|].
+  cbn [emit outs with_hs]. rewrite app_assoc, wcnt_snoc. cbn [wbit]. lia.
+Qed.
+Lemma remove_expired_active c s : active (hs (remove_expired_sessions c s)) = active (hs s).
+Proof. apply (remove_expired_sessions_frame c s). Qed.
 
 (* sess_put of a descendant of the session found by sess_get *)
 Lemma WI_sess_put c G H0 z ex s na se se' :
@@ -722,14 +746,14 @@ Proof.
   { cbn [fst]. eapply WI_z; [|exact W]. intros x. cbv beta. lia. }
   set (na := c_naddr ct).
   assert (Ha : WI c G H0 (fun x => z x + eqn rid x) ex
-                 (fst (if has_challenge (hs s) na then (s, true) else is_awaiting_session s na))).
-  { destruct (has_challenge (hs s) na); [exact W|apply WI_is_awaiting; exact W]. }
-  destruct (if has_challenge (hs s) na then (s, true) else is_awaiting_session s na) as [s1 awaiting].
+                 (fst (if has_challenge (hs s) na then (s, true) else is_awaiting_session c s na))).
+  { destruct (has_challenge (hs s) na); [exact W|apply (WI_is_awaiting c); exact W]. }
+  destruct (if has_challenge (hs s) na then (s, true) else is_awaiting_session c s na) as [s1 awaiting].
   cbn [fst] in Ha. destruct awaiting; cbn [fst].
   - apply (WI_push_pending c G H0 z ex s1 na {| pq_contact := ct; pq_ext := ext; pq_rid := rid; pq_body := body |}).
     exact Ha.
-  - pose proof (WI_sess_get c G H0 _ ex s1 na Ha) as Hg. pose proof (sess_get_got (hs s1) na) as Hgot.
-    destruct (sess_get (hs s1) na) as [h2 se]. cbn [fst snd] in Hg, Hgot.
+  - pose proof (WI_sess_get c c G H0 _ ex s1 na Ha) as Hg. pose proof (sess_get_got c (hs s1) na) as Hgot.
+    destruct (sess_get c (hs s1) na) as [h2 se]. cbn [fst snd] in Hg, Hgot.
     destruct se as [se|].
     + rewrite encrypt_message_eq. cbn [fst snd].
       match goal with |- WI _ _ _ _ _ (with_hs (send ?s4 _ ?p) (ar_insert _ _ _ ?call _)) =>
@@ -812,10 +836,11 @@ Lemma WI_fail_session c G H0 z ex s na err rm :
   WI c G H0 z ex s -> WI c G H0 z ex (fail_session c s na err rm).
 Proof.
   intros W. unfold fail_session.
-  set (s1 := if rm then with_hs s (sess_remove (hs s) na) else s).
+  set (s1 := if rm then let s0 := remove_expired_sessions c s in with_hs s0 (sess_remove (hs s0) na) else s).
   assert (W1 : WI c G H0 z ex s1).
-  { unfold s1. destruct rm; [|exact W]. apply WI_frame; [reflexivity|reflexivity| |exact W].
-    destruct (QH_sess_remove (hs s) na) as (_ & HD & _). exact HD. }
+  { unfold s1. destruct rm; [|exact W]. cbv zeta.
+    apply WI_frame; [reflexivity|reflexivity| |apply WI_remove_expired; exact W].
+    destruct (QH_sess_remove (hs (remove_expired_sessions c s)) na) as (_ & HD & _). exact HD. }
   clearbody s1.
   set (s2 := match alist_get na (pending (hs s1)) with Some l => _ | None => s1 end).
   assert (W2 : WI c G H0 z ex s2).
@@ -858,9 +883,9 @@ Lemma WI_send_response c G H0 z ex s na rid rb :
   WI c G H0 z ex s -> WI c G H0 z ex (send_response c s na rid rb).
 Proof.
   intros W. unfold send_response.
-  pose proof (WI_sess_get c G H0 z ex s na W) as Hg. pose proof (sess_get_got (hs s) na) as Hgot.
-  destruct (sess_get (hs s) na) as [h1 se]. cbn [fst snd] in Hg, Hgot.
-  destruct se as [se|]; [|exact W].
+  pose proof (WI_sess_get c c G H0 z ex s na W) as Hg. pose proof (sess_get_got c (hs s) na) as Hgot.
+  destruct (sess_get c (hs s) na) as [h1 se]. cbn [fst snd] in Hg, Hgot.
+  destruct se as [se|]; [|exact Hg].
   rewrite encrypt_message_eq. apply WI_send_none; [reflexivity|].
   apply (WI_sess_put c G H0 z ex {| hs := h1; dr := snd (pop_pk (dr s)); outs := outs s |} na se (bump se)).
   - apply Hgot. reflexivity.
@@ -1013,11 +1038,11 @@ Lemma WI_replay c G H0 z ex s na skip now :
   WI c G H0 z ex (replay_active_requests c s na skip now).
 Proof.
   intros W Hpre. unfold replay_active_requests.
-  pose proof (WI_sess_get c G H0 z ex s na W) as Hg. pose proof (sess_get_got (hs s) na) as Hgot.
-  pose proof (sess_get_snd (hs s) na) as Hsnd. pose proof (active_sess_get' (hs s) na) as Hact.
-  pose proof (pending_sess_get (hs s) na) as Hpend.
-  destruct (sess_get (hs s) na) as [h1 se]. cbn [fst snd] in Hg, Hgot, Hsnd, Hact, Hpend.
-  destruct se as [se0|]; [|exact W].
+  pose proof (WI_sess_get c c G H0 z ex s na W) as Hg. pose proof (sess_get_got c (hs s) na) as Hgot.
+  pose proof (sess_get_stored c (hs s) na) as Hsnd. pose proof (active_sess_get' c (hs s) na) as Hact.
+  pose proof (pending_sess_get c (hs s) na) as Hpend.
+  destruct (sess_get c (hs s) na) as [h1 se]. cbn [fst snd] in Hg, Hgot, Hsnd, Hact, Hpend.
+  destruct se as [se0|]; [|exact Hg].
   set (l := match alist_get na (active h1) with Some l => l | None => [] end).
   set (reqs := filter _ l).
   assert (Hreqs : reqs = filter (skipf skip) l) by reflexivity.
@@ -1052,7 +1077,7 @@ Proof.
   - intros xi Hxi. apply in_map_iff in Hxi. destruct Hxi as (r & <- & Hr). destruct (Hl r Hr) as [Hr1 Hr2].
     cbn [with_hs hs outs sess_put set_sessions pending]. rewrite E1, E2, Hpend. split.
     + unfold l in Hr1. rewrite Hact in Hr1. destruct (alist_get na (active (hs s))) as [l0|] eqn:El; [|destruct Hr1].
-      apply (Hpre se0 l0 r); auto.
+      destruct (Hsnd _ eq_refl) as (s00 & Es & _ & ->). rewrite touch_enc. apply (Hpre s00 l0 r); auto.
     + pose proof (Hocc r Hr1). pose proof (W_U _ _ _ _ _ _ _ _ W (rc_rid r)) as U. lia.
   - exact W2.
 Qed.
@@ -1075,12 +1100,17 @@ Lemma WI_new_session c G H0 z ex s na se skip now :
   WI c G H0 z ex (new_session c s na se skip now).
 Proof.
   intros W Hse Hpre. unfold new_session.
-  pose proof (WI_sess_get c G H0 z ex s na W) as Hg. pose proof (sess_get_got (hs s) na) as Hgot.
-  pose proof (active_sess_get' (hs s) na) as Hact.
-  destruct (sess_get (hs s) na) as [h1 cur]. cbn [fst snd] in Hg, Hgot, Hact.
+  apply (WI_remove_expired c) in W.
+  assert (Hpre' : forall l r, alist_get na (active (hs (remove_expired_sessions c s))) = Some l -> In r l ->
+            skipf skip r = true -> wcnt (rc_rid r) (s_enc se) (H0 ++ outs (remove_expired_sessions c s)) = 0).
+  { intros l r. rewrite remove_expired_active, remove_expired_wcnt. apply Hpre. }
+  clear Hpre. revert W Hpre'. generalize (remove_expired_sessions c s). clear s. intros s W Hpre.
+  pose proof (WI_sess_get c c G H0 z ex s na W) as Hg. pose proof (sess_get_got c (hs s) na) as Hgot.
+  pose proof (active_sess_get' c (hs s) na) as Hact.
+  destruct (sess_get c (hs s) na) as [h1 cur]. cbn [fst snd] in Hg, Hgot, Hact.
   destruct cur as [cs|].
   - set (cs' := {| s_enc := s_enc se; s_dec := s_dec se; s_old := Some (s_enc cs, s_dec cs);
-                  s_await := s_await se; s_counter := s_counter cs |}).
+                  s_await := s_await se; s_counter := s_counter cs; s_used := s_used cs |}).
     assert (W1 : WI c G H0 z ex (with_hs s (sess_put h1 na cs'))).
     { unfold WI in *. cbn [with_hs hs outs sess_put set_sessions active pending sessions] in *.
       eapply WIP_sess; [|exact Hg].
@@ -1101,7 +1131,7 @@ Proof.
     unfold WI in *. cbn [with_hs hs outs sess_insert set_sessions active pending sessions] in *.
     eapply WIP_sess; [|exact Hg].
     intros na0 se' k Hin Hk'.
-    assert (Hin' : In (na0, se') (alist_remove na (sessions h1) ++ [(na, se)])).
+    assert (Hin' : In (na0, se') (alist_remove na (sessions h1) ++ [(na, touch se (cfg_clock c))])).
     { destruct (Nat.ltb _ _); [apply tl_In|]; exact Hin. }
     apply in_app_or in Hin'. destruct Hin' as [Hin'|[Hin'|[]]].
     + apply In_alist_remove in Hin'. eapply (W_G _ _ _ _ _ _ _ _ Hg); eauto.
@@ -1127,9 +1157,9 @@ Lemma WI_handle_message c G H0 z ex s na n aad ct now :
   WI c G H0 z ex s -> WI c G H0 z ex (handle_message c s na n aad ct now).
 Proof.
   intros W. unfold handle_message.
-  pose proof (WI_sess_get c G H0 z ex s na W) as Hg. pose proof (sess_get_got (hs s) na) as Hgot.
-  destruct (sess_get (hs s) na) as [h1 se]. cbn [fst snd] in Hg, Hgot.
-  destruct se as [se|]; [|apply WI_emit_event; exact W].
+  pose proof (WI_sess_get c c G H0 z ex s na W) as Hg. pose proof (sess_get_got c (hs s) na) as Hgot.
+  destruct (sess_get c (hs s) na) as [h1 se]. cbn [fst snd] in Hg, Hgot.
+  destruct se as [se|]; [|apply WI_emit_event; exact Hg].
   pose proof (decrypt_message_desc se n aad ct) as Hd.
   destruct (decrypt_message se n aad ct) as [se' m]. cbn [fst] in Hd.
   assert (Hk : forall k, In k (sess_keys se') -> In k G).
@@ -1148,7 +1178,7 @@ Proof.
     { unfold s3.
       assert (W3 : WI c G H0 z ex (with_hs s2 (sess_put (hs s2) na
                    {| s_enc := s_enc se'; s_dec := s_dec se'; s_old := s_old se'; s_await := None;
-                      s_counter := s_counter se' |}))).
+                      s_counter := s_counter se'; s_used := s_used se' |}))).
       { apply WI_sess_put_keys; [|exact W2]. intros k Hk'. apply Hk. exact Hk'. }
       destruct (fix_d2b c); [|exact W3].
       match goal with |- context [ar_remove_request ?h na rid] =>
@@ -1238,13 +1268,23 @@ Proof.
       intros [<-|[]]. left. reflexivity.
 Qed.
 
-Lemma is_awaiting_effect s na :
-  outs (fst (is_awaiting_session s na)) = outs s /\ active (hs (fst (is_awaiting_session s na))) = active (hs s) /\
-  dr (fst (is_awaiting_session s na)) = dr s /\
-  forall x, In x (sessions (hs (fst (is_awaiting_session s na)))) <-> In x (sessions (hs s)).
+(* the sessions after an access to the cache: each one was there before, possibly stamped *)
+Definition sess_from (h h' : hstate) : Prop :=
+  forall na se, In (na, se) (sessions h') -> exists se0, In (na, se0) (sessions h) /\ s_enc se = s_enc se0.
+Lemma sess_from_get c h na : sess_from h (fst (sess_get c h na)).
 Proof.
-  unfold is_awaiting_session. pose proof (sess_get_In (hs s) na) as H1. pose proof (active_sess_get' (hs s) na) as H2.
-  destruct (sess_get (hs s) na) as [h se]. cbn [fst] in *. destruct se; cbn [fst with_hs hs outs dr]; auto.
+  intros na0 se Hin. destruct (sess_get_In c h na _ Hin) as [H1|(s0 & E & _ & H1)].
+  - exists se. auto.
+  - inversion H1; subst. exists s0. split; [apply alist_get_In; exact E|reflexivity].
+Qed.
+
+Lemma is_awaiting_effect c s na :
+  outs (fst (is_awaiting_session c s na)) = outs s /\ active (hs (fst (is_awaiting_session c s na))) = active (hs s) /\
+  dr (fst (is_awaiting_session c s na)) = dr s /\
+  sess_from (hs s) (hs (fst (is_awaiting_session c s na))).
+Proof.
+  unfold is_awaiting_session. pose proof (sess_from_get c (hs s) na) as H1. pose proof (active_sess_get' c (hs s) na) as H2.
+  destruct (sess_get c (hs s) na) as [h se]. cbn [fst] in *. destruct se; cbn [fst with_hs hs outs dr]; auto.
 Qed.
 
 (* no datagram under a key that is not the encryption key of the session with the contact *)
@@ -1255,21 +1295,22 @@ Proof.
   intros Hk x. unfold send_request.
   destruct (existsb (N.eqb (c_addr ct)) (cfg_listen c)); [reflexivity|].
   set (na := c_naddr ct) in *.
-  assert (Ha : let s1 := fst (if has_challenge (hs s) na then (s, true) else is_awaiting_session s na) in
-               outs s1 = outs s /\ forall x, In x (sessions (hs s1)) <-> In x (sessions (hs s))).
-  { cbv zeta. destruct (has_challenge (hs s) na); [split; [reflexivity|tauto]|].
-    destruct (is_awaiting_effect s na) as (A & _ & _ & B). auto. }
-  destruct (if has_challenge (hs s) na then (s, true) else is_awaiting_session s na) as [s1 awaiting].
+  assert (Ha : let s1 := fst (if has_challenge (hs s) na then (s, true) else is_awaiting_session c s na) in
+               outs s1 = outs s /\ sess_from (hs s) (hs s1)).
+  { cbv zeta. destruct (has_challenge (hs s) na); [split; [reflexivity|intros ? ? ?; eauto]|].
+    destruct (is_awaiting_effect c s na) as (A & _ & _ & B). auto. }
+  destruct (if has_challenge (hs s) na then (s, true) else is_awaiting_session c s na) as [s1 awaiting].
   cbn [fst] in Ha. cbv zeta in Ha. destruct Ha as [Ho Hs]. destruct awaiting; cbn [fst].
   - cbn [with_hs outs]. rewrite Ho. reflexivity.
-  - pose proof (sess_get_got (hs s1) na) as Hgot. pose proof (sess_get_In (hs s1) na) as Hin.
-    destruct (sess_get (hs s1) na) as [h2 se]. cbn [fst snd] in Hgot, Hin.
+  - pose proof (sess_get_got c (hs s1) na) as Hgot. pose proof (sess_from_get c (hs s1) na) as Hin.
+    destruct (sess_get c (hs s1) na) as [h2 se]. cbn [fst snd] in Hgot, Hin.
     destruct se as [se|].
     + rewrite encrypt_message_eq. cbn [fst snd with_hs send emit add_expected outs hs].
       rewrite wcnt_snoc, Ho, wbit_wire.
       destruct (carries x kf _) eqn:Ec; [|cbn; lia].
       apply carries_iff in Ec. cbn [creq] in Ec. inversion Ec. exfalso.
-      apply (Hk se); [|assumption]. apply Hs. apply Hin. apply Hgot. reflexivity.
+      destruct (Hin _ _ (Hgot _ eq_refl)) as (se1 & I1 & E1). destruct (Hs _ _ I1) as (se2 & I2 & E2).
+      apply (Hk se2); [exact I2|]. congruence.
     + destruct (pop_pk (dr (with_hs s1 h2))) as [[[[cn r] aad] e0] d'].
       cbn [fst snd with_hs send emit add_expected outs hs].
       rewrite wcnt_snoc, Ho, wbit_none by reflexivity. lia.
@@ -1283,13 +1324,13 @@ Proof.
   unfold send_request.
   destruct (existsb (N.eqb (c_addr ct)) (cfg_listen c)); [cbn [fst]; intros; right; eauto|].
   set (na' := c_naddr ct) in *.
-  assert (Ha : active (hs (fst (if has_challenge (hs s) na' then (s, true) else is_awaiting_session s na'))) = active (hs s)).
-  { destruct (has_challenge (hs s) na'); [reflexivity|]. destruct (is_awaiting_effect s na') as (_ & A & _). exact A. }
-  destruct (if has_challenge (hs s) na' then (s, true) else is_awaiting_session s na') as [s1 awaiting].
+  assert (Ha : active (hs (fst (if has_challenge (hs s) na' then (s, true) else is_awaiting_session c s na'))) = active (hs s)).
+  { destruct (has_challenge (hs s) na'); [reflexivity|]. destruct (is_awaiting_effect c s na') as (_ & A & _). exact A. }
+  destruct (if has_challenge (hs s) na' then (s, true) else is_awaiting_session c s na') as [s1 awaiting].
   cbn [fst] in Ha. destruct awaiting; cbn [fst].
   - cbn [with_hs hs]. rewrite active_push_pending', Ha. intros; right; eauto.
-  - pose proof (active_sess_get' (hs s1) na') as Hact.
-    destruct (sess_get (hs s1) na') as [h2 se]. cbn [fst] in Hact.
+  - pose proof (active_sess_get' c (hs s1) na') as Hact.
+    destruct (sess_get c (hs s1) na') as [h2 se]. cbn [fst] in Hact.
     destruct se as [se|].
     + rewrite encrypt_message_eq. cbn [fst snd with_hs send emit add_expected outs hs].
       rewrite active_ar_insert. cbn [active sess_put set_sessions]. rewrite Hact, Ha. intros H1 H2.
@@ -1300,9 +1341,8 @@ Proof.
       destruct (ins_act_get _ _ _ _ _ _ H1 H2) as [->|X]; [left; reflexivity|right; exact X].
 Qed.
 
-Lemma send_request_sessions_in c s ct ext rid body now :
-  forall x, In x (sessions (hs s)) -> exists se', In (fst x, se') (sessions (hs (fst (send_request c s ct ext rid body now)))).
-Proof. intros [na se] H. exact (QF_send_request c s ct ext rid body now na se H). Qed.
+(* (an unused lemma "send_request loses no session" stood here; with session expiry it is false: the
+   access to the cache removes an expired session of the contact) *)
 
 (* ------------------------------------------------------------------------------------------ *)
 (* Handler::handle_challenge *)
@@ -1363,7 +1403,7 @@ Proof.
   destruct found as [[na r]|]; [|intros _; apply WI_G_nil; apply Wz; exact Ht].
   destruct (negb (N.eqb (snd na) src)).
   { intros _. apply WI_G_nil. apply Wz. apply (WI_insert c G H0 z1 r ex (with_hs s h1) c na now). exact Ht. }
-  destruct (rc_hs_sent r).
+  destruct (rc_hs_sent r || c_ed (rc_contact r)).
   { intros _. apply WI_G_nil. apply Wz. apply WI_fail_request.
     destruct (fix_d6 c); [apply WI_remove_expected|]; exact Ht. }
   cbn zeta. set (ct := rc_contact r).
@@ -1480,18 +1520,23 @@ Proof.
   assert (FR : forall d, WI c G H0 z ex (match group_of d (nmap (hs s)) with
       | _ :: _ :: _ =>
         let (rev_order, d') := pop_rev (dr s) in
-        fire_group c {| hs := hs s; dr := d'; outs := outs s |}
+        fire_group (with_clock c (fire_time c d now)) {| hs := hs s; dr := d'; outs := outs s |}
           (if rev_order then rev (group_of d (nmap (hs s))) else group_of d (nmap (hs s))) d (fire_time c d now)
-      | _ => fire_group c s (group_of d (nmap (hs s))) d (fire_time c d now)
+      | _ => fire_group (with_clock c (fire_time c d now)) s (group_of d (nmap (hs s))) d (fire_time c d now)
       end)).
-  { intros d. destruct (group_of d (nmap (hs s))) as [|x [|y g]]; try (apply WI_fire_group; exact W).
-    destruct (pop_rev (dr s)) as [ro d']. apply WI_fire_group. exact W. }
+  { intros d. destruct (group_of d (nmap (hs s))) as [|x [|y g]];
+      try (apply (WI_clock c (fire_time c d now)); apply WI_fire_group; apply WI_clock; exact W).
+    destruct (pop_rev (dr s)) as [ro d']. apply (WI_clock c (fire_time c d now)). apply WI_fire_group.
+    apply WI_clock. exact W. }
+  assert (FC : forall cna cd, WI c G H0 z ex
+            (fire_challenge (with_clock c (fire_time c cd now)) s cna (fire_time c cd now))).
+  { intros cna cd. apply (WI_clock c (fire_time c cd now)). apply WI_fire_challenge. apply WI_clock. exact W. }
   destruct (min_deadline_nmap (nmap (hs s)) None) as [[[rn ra] rd]|];
   destruct (min_deadline_ch (challenges (hs s)) None) as [[[cna cc] cd]|].
   - destruct (N.ltb rd now && (negb (N.ltb cd now) || N.leb rd cd)); [apply IH; apply FR|].
-    destruct (N.ltb cd now); [apply IH; apply WI_fire_challenge; exact W|exact W].
+    destruct (N.ltb cd now); [apply IH; apply FC|exact W].
   - destruct (N.ltb rd now); [apply IH; apply FR|exact W].
-  - destruct (N.ltb cd now); [apply IH; apply WI_fire_challenge; exact W|exact W].
+  - destruct (N.ltb cd now); [apply IH; apply FC|exact W].
   - exact W.
 Qed.
 
@@ -1527,9 +1572,12 @@ Qed.
 Local Transparent tick.
 Lemma tick_WI c G H0 z h now d :
   WI c G H0 z [] {| hs := h; dr := d; outs := [] |} -> WI c G H0 z [] (tick c h now d).
-Proof. unfold tick. apply WI_fire_due. Qed.
+Proof. intros W. unfold tick. apply (WI_clock c now). apply WI_fire_due. apply WI_clock. exact W. Qed.
 Lemma tick_d_rid c h now d : d_rid (dr (tick c h now d)) = d_rid d.
-Proof. unfold tick. destruct (fire_due_live c now TICK_FUEL {| hs := h; dr := d; outs := [] |}) as [X _]. exact X. Qed.
+Proof.
+  unfold tick. destruct (fire_due_live (with_clock c now) now TICK_FUEL {| hs := h; dr := d; outs := [] |}) as [X _].
+  exact X.
+Qed.
 Global Opaque tick.
 
 (* the invariant between steps *)
@@ -1545,7 +1593,9 @@ Proof.
   intros W ik HF. rewrite step_eq. cbn [fst snd].
   assert (W0 : WI c G hist (fun x => z x + cnt x (new_ids e d)) [] (tick c h now d)).
   { apply tick_WI. unfold WI. cbn [hs outs]. rewrite app_nil_r. exact W. }
-  exact (WI_dispatch c G hist z (tick c h now d) e now d (tick_d_rid c h now d) W0 HF).
+  apply (WI_clock c now).
+  apply (WI_dispatch (with_clock c now) G hist z (tick c h now d) e now d (tick_d_rid c h now d)); [|exact HF].
+  apply WI_clock. exact W0.
 Qed.
 
 Lemma WS_run c evs : forall h hist G z,
